@@ -49,7 +49,7 @@ def translate_defs(wb, opts=()):
 
 def make_knobs(ch):
     return wasm.Knobs(ch, pad_prob_pct=ch.pick((5, 20, 50, 90)), customs=ch.below(2) == 0, data_flag2=ch.below(2) == 0,
-                      empty_sections=ch.below(2) == 0, datacount=ch.below(2) == 0)
+                      empty_sections=ch.below(2) == 0, datacount=ch.below(2) == 0, local_groups=ch.below(2) == 0)
 
 
 def diff_summary(a, b):
@@ -102,6 +102,8 @@ def task(wid, seed, params):
                 classes.append('empty_section_present')
             if st['datacount']:
                 classes.append('extra_datacount')
+            if st.get('local_groups'):
+                classes.append('regrouped_locals_with_empty_entries')
             if classes:
                 res['nontrivial'].add(f1.hx(wb))
                 for c in classes:
@@ -151,7 +153,7 @@ def task(wid, seed, params):
 
 def minimise(m, canon, defs0, opts, kn, sig):
     """try single knob families to find a smaller distinguishing encoding"""
-    for kw in ({'pad_prob_pct': 100}, {'customs': True}, {'data_flag2': True}, {'empty_sections': True}, {'datacount': True}):
+    for kw in ({'pad_prob_pct': 100}, {'customs': True}, {'data_flag2': True}, {'empty_sections': True}, {'datacount': True}, {'local_groups': True}):
         for s in range(4):
             k = wasm.Knobs(Chooser(s), **kw)
             wb = wasm.encode(m, k)
